@@ -104,10 +104,18 @@ func genC09(t *rapid.T, env *wire.GenEnv) c09Case {
 			// template with one element that is not in the model, at a drawn position among known fields
 			tp := env.GenTemplate(t, freshID())
 			miss := wire.Field{ID: uint16(rapid.SampledFrom([]int{434, 500, 9999, 32767}).Draw(t, "missingid")), Len: uint16(rapid.IntRange(1, 8).Draw(t, "missinglen")), Type: wire.TUnknown}
-			pos := rapid.IntRange(0, len(tp.Fields)).Draw(t, "misspos")
-			fs := append([]wire.Field{}, tp.Fields[:pos]...)
-			fs = append(fs, miss)
-			tp.Fields = append(fs, tp.Fields[pos:]...)
+			if tp.Options && len(tp.Scope) > 0 && rapid.Bool().Draw(t, "missinscope") {
+				// the missing element is a scope field of an options template
+				pos := rapid.IntRange(0, len(tp.Scope)).Draw(t, "missscopepos")
+				fs := append([]wire.Field{}, tp.Scope[:pos]...)
+				fs = append(fs, miss)
+				tp.Scope = append(fs, tp.Scope[pos:]...)
+			} else {
+				pos := rapid.IntRange(0, len(tp.Fields)).Draw(t, "misspos")
+				fs := append([]wire.Field{}, tp.Fields[:pos]...)
+				fs = append(fs, miss)
+				tp.Fields = append(fs, tp.Fields[pos:]...)
+			}
 			var m wire.Msg
 			env.GenHeader(t, &m)
 			kind := "tpl"
